@@ -16,6 +16,10 @@ deriving DecidableEq, Repr
 def Res.fault {α : Type} : Res α → Fault
   | .panic => .panic | .deadlock => .deadlock | .hang => .hang | _ => .none
 
+@[simp] theorem bind'_lift_ok (a : α) (f : α → EngineM σ β) (w : World σ) : bind' (lift (.ok a)) f w = f a w := rfl
+@[simp] theorem bind'_lift_err (e : ErrKind) (f : α → EngineM σ β) (w : World σ) :
+    bind' (lift (.err e : Res α)) f w = (.err e, w) := rfl
+
 theorem bind'_ok {m : EngineM σ α} {f : α → EngineM σ β} {w w' : World σ} {a : α}
     (h : m w = (.ok a, w')) : bind' m f w = f a w' := by simp [bind', h]
 
@@ -68,5 +72,15 @@ theorem lookupE_clean {γ : Type} {tbl : Regs → List (Name × γ)} {n : Name} 
       | none => (.err e, w) := by
   simp only [lookupE, bind'_ok (readRegs_clean h)]
   cases alookup n (tbl w.regs) <;> rfl
+
+theorem lookupE_some {γ : Type} {tbl : Regs → List (Name × γ)} {n : Name} {e : ErrKind} {w : World σ} {x : γ}
+    (h : w.Clean) (hl : alookup n (tbl w.regs) = some x) : lookupE tbl n e w = (.ok x, w) := by
+  rw [lookupE_clean h, hl]
+theorem lookupE_none {γ : Type} {tbl : Regs → List (Name × γ)} {n : Name} {e : ErrKind} {w : World σ}
+    (h : w.Clean) (hl : alookup n (tbl w.regs) = none) : lookupE tbl n e w = (.err e, w) := by
+  rw [lookupE_clean h, hl]
+
+theorem bind'_err {m : EngineM σ α} {f : α → EngineM σ β} {w w' : World σ} {e : ErrKind}
+    (h : m w = (.err e, w')) : bind' m f w = (.err e, w') := by simp [bind', h]
 
 end EE
